@@ -819,6 +819,18 @@ func makeDefaultValue(typ *TypeDescriptor, val *parser.ConstValue, tree *parser.
 	}
 	switch val.Type {
 	case parser.ConstType_ConstInt:
+		if x := val.TypedValue.Int; x != nil && typ.typ == DOUBLE {
+			// an integer literal is a valid default of a double field
+			v := float64(*x)
+			tbuf := make([]byte, 8)
+			BinaryEncoding{}.EncodeDouble(tbuf, v)
+			jbuf := json.EncodeFloat64(make([]byte, 0, 8), v)
+			return &DefaultValue{
+				goValue:      v,
+				jsonValue:    rt.Mem2Str(jbuf),
+				thriftBinary: rt.Mem2Str(tbuf),
+			}, nil
+		}
 		if !typ.typ.IsInt() {
 			return nil, fmt.Errorf("mismatched int default value with type %s", typ.name)
 		}
